@@ -240,6 +240,7 @@ func (tc *TypeCtx) ensureBox(s Sort) string {
 }
 
 func (tc *TypeCtx) Box(t types.Type, v Term) Term {
+	t = types.Default(t) // an untyped constant is boxed with its default type
 	id := tc.TypeID(t)
 	m := tc.ensureBox(v.Sort)
 	payload := v
